@@ -336,8 +336,10 @@ def run(ctx):
         pass
     tol_consts = []
     for fn_ in [w2t] + [local_fns[c_["fn"]] for c_ in hirq.calls(w2t.hir["body"]) if c_.get("fn") in local_fns]:
+        flets = {l["pat"]["name"]: hirq.render(l["init"]) for l in hirq.find(fn_.hir["body"], "let") if l["pat"].get("k") == "bind" and l.get("init") is not None}
         for n_ in hirq.find(fn_.hir["body"], "bin"):
-            if n_["op"] in ("<", "<=", ">", ">=") and "abs" in hirq.render(n_):
+            deep = hirq.render(n_) + " " + " ".join(flets.get(x["res"]["local"], "") for x in hirq.walk(n_) if x.get("k") == "path" and "local" in x["res"])
+            if n_["op"] in ("<", "<=", ">", ">=") and "abs" in deep:
                 for side in (n_["l"], n_["r"]):
                     sd = hirq.strip(side)
                     val = None
